@@ -204,7 +204,7 @@ CanEmpty(g) ==
     [] o \in {"end", "empty", "probe", "cfgjust", "cfgjustr"} -> TRUE
     [] o \in {"cust", "ext"} -> g[2] = 0 /\ g[3]
     \* a program certainly consumes when it starts with next() and never rewinds
-    [] o = "prog" -> ~(g[2] # <<>> /\ g[2][1][1] = "n" /\ \A i \in DOMAIN g[2] : g[2][i][1] # "rw")
+    [] o = "prog" -> ~(g[2] # <<>> /\ g[2][1][1] \in {"n", "nm"} /\ \A i \in DOMAIN g[2] : g[2][i][1] # "rw")
     [] o \in {"then", "ithen", "theni"} -> CanEmpty(g[2]) /\ CanEmpty(g[3])
     [] o = "delim" -> CanEmpty(g[2]) /\ CanEmpty(g[3]) /\ CanEmpty(g[4])
     [] o = "padded" -> CanEmpty(g[2])
